@@ -17,6 +17,7 @@ from . import sym
 from .sym import CTX, Fl, qv
 
 _cache = {}
+_chebcache = {}
 
 
 def reset():
@@ -34,23 +35,93 @@ def _t5():
     return CTX.const("t5", lambda v: [v * v == 10 + 2 * r5, v > qv(Fraction(38, 10)), v < qv(Fraction(39, 10))])
 
 
+_minpoly = {}
+
+
+def minpoly(n):
+    """coefficients (low to high, Fractions) of the minimal polynomial of cos(2 pi/n)"""
+    if n not in _minpoly:
+        import sympy as sp
+
+        x = sp.Symbol("x")
+        p = sp.Poly(sp.minimal_polynomial(sp.cos(2 * sp.pi / n), x), x)
+        _minpoly[n] = [Fraction(int(c.p), int(c.q)) for c in reversed(p.all_coeffs())]
+    return _minpoly[n]
+
+
+def _polymod(a, p):
+    """a mod p for coefficient lists (low to high) over Q"""
+    a = list(a)
+    dp = len(p) - 1
+    while len(a) - 1 >= dp:
+        f = a[-1] / p[-1]
+        if f:
+            for i in range(dp + 1):
+                a[len(a) - 1 - dp + i] -= f * p[i]
+        a.pop()
+    return a
+
+
+def _polymul(a, b):
+    out = [Fraction(0)] * (len(a) + len(b) - 1)
+    for i, x in enumerate(a):
+        if x:
+            for j, y in enumerate(b):
+                out[i + j] += x * y
+    return out
+
+
+def _cheb(n, jmax):
+    """T_j(x) mod p and U_j(x) mod p for j = 0..jmax (p = minpoly(n))"""
+    p = minpoly(n)
+    X = [Fraction(0), Fraction(1)]
+    T = [[Fraction(1)], _polymod(X, p)]
+    U = [[Fraction(1)], _polymod([Fraction(0), Fraction(2)], p)]
+    for j in range(2, jmax + 1):
+        for seq in (T, U):
+            a = _polymul([Fraction(0), Fraction(2)], seq[j - 1])
+            b = seq[j - 2]
+            m = max(len(a), len(b))
+            a = a + [Fraction(0)] * (m - len(a))
+            b = b + [Fraction(0)] * (m - len(b))
+            seq.append(_polymod([x - y for x, y in zip(a, b)], p))
+    return T, U
+
+
 def _root(n):
+    """(c1, s1) = (cos, sin)(2 pi / n): c1 is pinned by its minimal polynomial
+    and an isolating interval, s1 by s1^2 = 1 - c1^2, s1 > 0."""
     ang = 2 * math.pi / n
     c, s = math.cos(ang), math.sin(ang)
     eps = Fraction(1, 10**9)
-    c1 = CTX.const(f"tw{n}c", lambda v: [v > qv(Fraction(c) - eps), v < qv(Fraction(c) + eps)])
-    s1 = CTX.const(f"tw{n}s", lambda v: [v > qv(Fraction(s) - eps), v < qv(Fraction(s) + eps)])
-    key = f"tw{n}closure"
-    if key not in CTX.consts:
-        CTX.consts[key] = True
-        CTX.axioms.append(c1 * c1 + s1 * s1 == 1)
-        # (c1 + i s1)^n == 1
-        re, im = c1, s1
-        for _ in range(n - 1):
-            re, im = re * c1 - im * s1, re * s1 + im * c1
-        CTX.axioms.append(re == 1)
-        CTX.axioms.append(im == 0)
+    p = minpoly(n)
+
+    def facts(v):
+        acc = 0
+        for k, a in enumerate(p):
+            if a:
+                t = qv(a)
+                for _ in range(k):
+                    t = t * v
+                acc = acc + t
+        return [acc == 0, v > qv(Fraction(c) - eps), v < qv(Fraction(c) + eps)]
+
+    c1 = CTX.const(f"tw{n}c", facts)
+    s1 = CTX.const(f"tw{n}s", lambda v: [v * v == 1 - c1 * c1, v > 0])
     return c1, s1
+
+
+def _evalpoly(coeffs, v):
+    acc = None
+    pw = None
+    for k, a in enumerate(coeffs):
+        pw = None
+        if a:
+            t = qv(a)
+            for _ in range(k):
+                t = t * v
+            acc = t if acc is None else acc + t
+    return acc if acc is not None else z3.RealVal(0)
 
 
 def cs(j, n):
@@ -93,10 +164,11 @@ def cs(j, n):
                 out = (-c, -s)
     else:
         c1, s1 = _root(n)
-        re, im = z3.RealVal(1), z3.RealVal(0)
-        for _ in range(j):
-            re, im = re * c1 - im * s1, re * s1 + im * c1
-        out = (re, im) if j else (1, 0)
+        if n not in _chebcache:
+            _chebcache[n] = _cheb(n, n)
+        T, U = _chebcache[n]
+        # cos(j t) = T_j(cos t); sin(j t) = sin t * U_{j-1}(cos t), both reduced mod minpoly
+        out = (_evalpoly(T[j], c1), s1 * _evalpoly(U[j - 1], c1)) if j else (1, 0)
     out = (_fl(cn, out[0]), _fl(sn, out[1]))
     _cache[key] = out
     return out
